@@ -51,6 +51,11 @@ func main() {
 		for _, op := range c.StoreOps("main") {
 			fmt.Printf("%-6s %-70q %-70s %s\n", op.Op, c.Engine("main").T.LayoutString(op.Prefix)+"|"+op.Layout, op.Fn, op.Where)
 		}
+	case "storereads":
+		c := rules.NewCtx(&rules.Prop{ID: "X"}, "quick")
+		for _, l := range c.StoreReadsDump("main") {
+			fmt.Println(l)
+		}
 	default:
 		fmt.Println("unknown command")
 		os.Exit(2)
